@@ -1,4 +1,5 @@
 """C18 — the validator address book holds only authentic, newest announcements."""
+from . import common
 from engine import query as Q
 from engine.terms import show, subterms
 from engine.guards import Atom, Walker, field_path, chain, Inliner
@@ -163,7 +164,7 @@ def rule_writers(ctx):
     f = ctx.body(VAW + "::announce")
     T = ctx.T(f)
     signs = [T.args_of(c) for c in T.calls() if c["q"].endswith("SecretKey::sign_msg")]
-    ok = bool(signs) and all(a[0][0] in ("upvar", "param") and a[0][-1] == "key" for a in signs)
+    ok = bool(signs) and all(common.is_p(a[0], common.pnames(f, "SecretKey")) for a in signs)
     ctx.ob(R, "announce signs with the node's key", ok, "announce signs the NetAddress with the key argument" if ok else "announce signing key: %s" % [show(a[0]) for a in signs], f.loc())
     okv = False
     for a in signs:
